@@ -382,3 +382,135 @@ def autograd(ctx) -> None:
     ctx.ob("AUTOGRAD", "adjoint exponent", bwd.loc(), oks,
            "parameter gradients use exp(−i·dt·H), the state gradient exp(+i·dt·H)" if oks else
            f"the generators used in backward have signs {sorted(signs)} (expected one −i·dt·H and one +i·dt·H)")
+
+
+# ------------------------------------------------------------------ derivative operators of the emu-sv backward pass
+REAL_APPLY = "emu_sv.time_evolution._apply_omega_real"
+DERIV_CLASSES = {
+    # class -> (parameter whose derivative it is, phase offset of alpha's exponent in units of pi, extra real factor)
+    "emu_sv.time_evolution.DHDOmegaSparse": ("omega", 0.0, None),
+    "emu_sv.time_evolution.DHDPhiSparse": ("phi", 0.5, "omega"),
+}
+
+
+def _exp_argument(alpha, cls_q):
+    """alpha = 0.5 · [real factor ·] exp(1j · (phi + c)) [.item()]: returns (c in units of pi, set of other factor names)
+    or None when alpha does not have that shape."""
+    from ..algebra import monomials
+    t = strip_typed(alpha)
+    exps = [x for x in walk(t) if x[0] == "call" and x[1] == "torch.exp" and len(x[2]) == 1]
+    if len(exps) != 1:
+        return None
+    arg = strip_typed(exps[0][2][0])
+    phi = ("param", cls_q + ".__init__", "phi")
+    pi = ("ext", "torch.pi")
+    mons = monomials(arg)
+    off = None
+    coef_phi = None
+    for m, c in mons.items():
+        atoms = [strip_typed(a) for a in m]
+        if atoms == [phi]:
+            coef_phi = c
+        elif atoms == [pi]:
+            off = c
+        elif atoms == []:
+            off = (off or 0) + c / 3.141592653589793
+        else:
+            return None
+    if coef_phi is None or abs(coef_phi - 1j) > 1e-12:
+        return None
+    off = 0.0 if off is None else (off / 1j).real if abs(off.imag if isinstance(off, complex) else 0) > 0 else float(off.real if isinstance(off, complex) else off)
+    # the rest of alpha: constant 0.5 and possibly real parameters
+    others = {x[2] for x in walk(t) if x[0] == "param" and x[2] != "phi" and not contains(exps[0], lambda y: y == x)}
+    half = any(x == ("const", 0.5) for x in walk(t))
+    imag_outside = any(x[0] == "const" and isinstance(x[1], complex) and not contains(exps[0], lambda y: y is x) for x in walk(t)
+                       if not contains(exps[0], lambda y: y == x))
+    if not half or imag_outside:
+        return None
+    return off, others
+
+
+def derivative_ops(ctx) -> None:
+    """∂H/∂Ω_k = ½(e^{iφ}σ⁺ + h.c.), ∂H/∂φ_k = ½Ω(e^{i(φ+π/2)}σ⁺ + h.c.).  The σˣ shortcut (`_apply_omega_real`, which
+    applies α·σˣ and is only right for real α) may be chosen only where α is real: exponent exactly i·φ and φ tested zero."""
+    from ..interp import field_defs
+    prog = ctx.prog
+    for cq, (what, want_off, factor) in DERIV_CLASSES.items():
+        K = prog.cls(cq)
+        fd = field_defs(prog, K)
+        alphas = [(v, ev) for v, ev in fd.get("alpha", []) if ev is not None]
+        ctx.require(len(alphas) == 1, f"GRAD-ops: {len(alphas)} definitions of {K.name}.alpha")
+        shape = _exp_argument(alphas[0][0], cq)
+        ok_alpha = shape is not None and abs(shape[0] - want_off) < 1e-9 and shape[1] == ({factor} if factor else set())
+        ctx.ob("GRAD-ops", f"{K.name}.alpha", alphas[0][1].loc(), ok_alpha,
+               f"α = ½{'·' + factor if factor else ''}·exp(i(φ{' + π/2' if want_off else ''})): the coefficient of σ⁺ in ∂H/∂{what}" if ok_alpha else
+               f"{K.name}.alpha = {show(alphas[0][0])[:100]} is not ½{'·' + factor if factor else ''}·exp(i(φ + {want_off}π)): "
+               f"the gradient with respect to {what} is computed from the wrong operator")
+        # every way the real shortcut can be selected
+        sel = []
+        for name, defs in fd.items():
+            for v, ev in defs:
+                if ev is not None and strip_typed(v) == ("ref", REAL_APPLY):
+                    sel += [(ev, conds) for conds in getattr(ev, "alt_conds", [ev.conds])]
+        it = Interp(prog, K, inline=lambda c, r, d: False)
+        for m in K.methods.values():
+            for p in it.run(m):
+                for e in p.events:
+                    if e.kind == "call" and e.name == REAL_APPLY:
+                        sel.append((e, e.conds))
+        bad = []
+        for ev, conds in sel:
+            phi_zero = any(strip_typed(c)[0] == "mcall" and strip_typed(c)[2] in ("is_nonzero", "any") and
+                           strip_typed(strip_typed(c)[1]) == ("param", cq + ".__init__", "phi") and t is False for c, t in conds)
+            if not (phi_zero and shape is not None and abs(shape[0]) < 1e-12):
+                bad.append(ev)
+        ctx.ob("GRAD-ops", f"{K.name} real shortcut", (bad[0] if bad else alphas[0][1]).loc(), not bad,
+               (f"{K.name} applies α·σˣ only when φ = 0 and α = ½·e^(iφ) is real" if sel else
+                f"{K.name} always applies ασ⁺ + α*σ⁻") if not bad else
+               f"{K.name} selects the σˣ shortcut (_apply_omega_real applies α to both σ⁺ and σ⁻) although α = "
+               f"{show(alphas[0][0])[:70]} is not real there: the gradient with respect to {what} is wrong wherever the "
+               f"shortcut is taken (e.g. φ = 0 gives α = iΩ/2, which needs ασ⁺ + α*σ⁻)")
+
+
+def inplace(ctx) -> None:
+    """A custom autograd Function must not write into the storage of its tensor inputs (forward) or of the incoming
+    gradients (backward): other nodes of the graph may have saved those tensors — e.g. the occupation computed from the
+    state of an intermediate evaluation time — and autograd then refuses to differentiate ('modified by an inplace
+    operation').  Decided on interprocedural mutates-parameter summaries restricted to tensor storage."""
+    from .pure import Effects
+    prog = ctx.prog
+    E = Effects(prog, tensor_only=True)
+    K = prog.cls("emu_sv.time_evolution.EvolveStateVector")
+    n = 0
+    for mname, exempt in (("forward", {"ctx"}), ("backward", {"ctx"})):
+        m = K.methods.get(mname)
+        ctx.require(m is not None, f"AUTOGRAD-inplace: EvolveStateVector.{mname} not found")
+        summ = E.summary(m)
+        params = [p for p in m.params if p not in exempt]
+        for p in params:
+            n += 1
+            reasons = summ.get(p, set())
+            chain = _mutation_chain(E, prog, m, p) if reasons else ""
+            ctx.ob("AUTOGRAD-inplace", f"EvolveStateVector.{mname}|{p}", m.loc(), not reasons,
+                   f"{mname} never writes into the storage of `{p}`" if not reasons else
+                   f"EvolveStateVector.{mname} modifies its input `{p}` in place ({chain}): a loss that also uses the "
+                   f"tensor elsewhere (an observable at an intermediate evaluation time was computed from the state "
+                   f"the next step overwrites) cannot be differentiated — torch.autograd raises 'one of the variables "
+                   f"needed for gradient computation has been modified by an inplace operation'", entry=m.qualname)
+    ctx.require(n >= 8, f"AUTOGRAD-inplace: only {n} tensor parameters examined")
+
+
+def _mutation_chain(E, prog, f, param: str, depth: int = 0) -> str:
+    """Human-readable path from a mutated parameter down to the statement that writes."""
+    reasons = sorted(E.summary(f).get(param, ()))
+    for r in reasons:
+        if r.startswith("direct:"):
+            return f"{f.qualname.split('.')[-1]}: `{r[7:]}`"
+    for r in reasons:
+        if r.startswith("call:") and depth < 6:
+            callee = prog.funcs.get(r[5:])
+            if callee is not None:
+                for q in callee.params:
+                    if q in E.summary(callee):
+                        return f"{f.qualname.split('.')[-1]} → " + _mutation_chain(E, prog, callee, q, depth + 1)
+    return "; ".join(reasons)
